@@ -1,21 +1,21 @@
 #!/bin/bash
 # tools/seedtest.sh <seed dir> <check id> [<check id> ...]
-# Applies a seeded change to /repo, confirms tests still pass and the demo fails, runs the given quick checks, reverts.
-# Always leaves /repo clean.
+# Applies a seeded change to a SCRATCH worktree of /repo (never to /repo itself), confirms tests still pass and the demo
+# fails there, runs the given quick checks against the scratch copy (VERIF_REPO), removes the worktree.
 S="$1"; shift
-cd /repo || exit 9
-if ! git diff --quiet; then echo "REPO NOT CLEAN"; exit 9; fi
-if ! git apply --check "$S/patch.diff" 2>/dev/null; then
-  if git apply --check -3 "$S/patch.diff" 2>/dev/null; then echo "(3-way needed)"; fi
-  echo "PATCH DOES NOT APPLY: $S"; exit 8
-fi
-trap 'git -C /repo checkout -- . ; git -C /repo clean -fdq -- pane' EXIT
+N=$(basename "$S")
+W=/tmp/seedrepo_$N
+git -C /repo worktree remove --force $W >/dev/null 2>&1
+git -C /repo worktree add -q --detach $W HEAD || exit 9
+trap 'git -C /repo worktree remove --force '$W' >/dev/null 2>&1' EXIT
+cd $W
+if ! git apply --check "$S/patch.diff" 2>/dev/null; then echo "PATCH DOES NOT APPLY: $S"; exit 8; fi
 /venv/bin/python "$S/demo.py" >/dev/null 2>&1; echo "demo on clean tree: exit $?"
 git apply "$S/patch.diff"
 T=$(/venv/bin/python -m pytest -q -p no:cacheprovider 2>&1 | tail -1); echo "tests with seed: $T"
 /venv/bin/python "$S/demo.py" >/dev/null 2>&1; echo "demo with seed: exit $?"
 for c in "$@"; do
-  out=$(cd /verif && ./check $c --tier quick --no-selftest --no-evidence --replay-dir /verif/build/seedreplay 2>&1)
+  out=$(cd /verif && VERIF_REPO=$W ./check $c --tier quick --no-selftest --no-evidence --replay-dir /verif/build/seedreplay/$N 2>&1)
   rc=$?
   echo "check $c with seed: exit $rc"
   echo "$out" | grep -E "^(VIOLATION|counterexample|INCONCLUSIVE|SPURIOUS|HARNESS|SUMMARY)" | head -8
